@@ -224,7 +224,7 @@ func Checks() map[string]*simcore.Check {
 			},
 			Components: simcore.Components{Real: append([]string{"triedb/pathdb loadLayers/loadJournal/repairHistory/truncateFromHead/Recover on materialised crash states", "core/rawdb resettable freezer open/repair (recompiled onto simos)"}, realComponents...), Stub: stubComponents},
 			Perturbed:  []string{"order of freezer table writes and batch contents (map iteration): cut positions shift between executions, replays fall back to full enumeration"},
-			Runs:       map[string]int{"quick": 320, "thorough": 2000},
+			Runs:       map[string]int{"quick": 480, "thorough": 2000},
 			Gen:        genC20, Decode: decodePlan, Run: runCrash, Shrink: shrinkPlan,
 			ProbeNames: []string{"journal-loaded-after-crash", "journal-absent-or-discarded-after-crash", "rollback-after-crash", "rebooted-nonempty", "rebooted-empty", "recover-done", "flatten"},
 		},
